@@ -96,8 +96,15 @@ package msg
 //@   props C10 C14 C15
 //@   requires msg != nil
 //@
+//@ // every Send stamps the topic with the current epoch (an active topic must not expire and be buffered again)
 //@ func (*Box).Send
 //@   props C14 C15
+//@   ghost-var stamped bool
+//@   at mapupdate(b.startedSending):
+//@     assert [this-topic] string(key$) == string(topic)
+//@     ghost stamped = true
+//@   at return:
+//@     assert [stamped] stamped
 //@
 //@ // in-order hand-off (C14): while the buffered messages of a topic are being handed over, direct forwarding for that topic
 //@ // must not be enabled yet, or a message of the same sender that arrives now overtakes them
